@@ -9,7 +9,7 @@ LOG=$WT/confirm_$X.log
 PYTHONPATH=$WT /venv/bin/python demo_$X.py >> $LOG 2>&1; echo "DEMO_CLEAN_EXIT=$?" >> $LOG
 git apply mut$X.diff || { echo "APPLY_FAILED" >> $LOG; exit 1; }
 PYTHONPATH=$WT /venv/bin/python demo_$X.py >> $LOG 2>&1; echo "DEMO_MUTATED_EXIT=$?" >> $LOG
-PY_IGNORE_IMPORTMISMATCH=1 PYTHONPATH=$WT /venv/bin/python -m pytest -q -p no:cacheprovider --timeout=900 --continue-on-collection-errors --junitxml=$WT/junit_$X.xml > $WT/suite_$X.log 2>&1
+OMP_NUM_THREADS=2 OPENBLAS_NUM_THREADS=2 MKL_NUM_THREADS=2 PY_IGNORE_IMPORTMISMATCH=1 PYTHONPATH=$WT /venv/bin/python -m pytest -q -p no:cacheprovider --timeout=900 --continue-on-collection-errors --junitxml=$WT/junit_$X.xml > $WT/suite_$X.log 2>&1
 tail -3 $WT/suite_$X.log >> $LOG
 /venv/bin/python - $WT/junit_$X.xml >> $LOG <<'P'
 import sys, json, xml.etree.ElementTree as ET
